@@ -20,7 +20,9 @@
 EXTENDS Integers, Sequences, FiniteSets
 
 CONSTANTS HS,        \* LZMA_STREAM_HEADER_SIZE (12)
-          TempCap    \* sizeof(coder->temp) (8192)
+          TempCap,   \* sizeof(coder->temp) (8192)
+          BugPadding \* FALSE; TRUE = a deliberately wrong decoder (Stream Padding seen in earlier buffers is
+                     \* forgotten) used to show that the contract of MCFileInfo is not vacuous
 
 Min(a, b) == IF a < b THEN a ELSE b
 StreamRec(blocks, isize, pad) == [blocks |-> blocks, isize |-> isize, pad |-> pad, claimB |-> isize, claimT |-> blocks]
@@ -95,7 +97,7 @@ Case(f, c) ==
             IF ft.more THEN R(ft.c, "OK")
             ELSE LET d == ft.c
                      np == ZeroRun(f, d.target, d.tsize)
-                     e == [d EXCEPT !.pad = @ + np, !.target = @ - np]
+                     e == [d EXCEPT !.pad = IF BugPadding THEN np ELSE @ + np, !.target = @ - np]
                  IN  IF np = d.tsize THEN R([e EXCEPT !.seq = "PSEEK"], "CONT")
                      ELSE IF e.pad % 4 # 0 THEN R(e, "DATA_ERROR")
                      ELSE LET g == [e EXCEPT !.seq = "FOOTER", !.tsize = d.tsize - np, !.tpos = d.tsize - np]
